@@ -99,6 +99,17 @@ class Spec:
     def wellcond(self, th, f32=False):
         return True
 
+    def guard_ok(self, th):
+        """the guard of the theorem (documented exclusions such as theta != 0 for the quotient maps)"""
+        return True
+
+    def accept(self, th, f32, for_tie):
+        return self.wellcond(th, f32) and self.guard_ok(th)
+
+    def columns(self):
+        """index sets of theta that form one column of the pre-factor matrix (for the zero-column patterns)"""
+        return []
+
 
 def M():
     import numqi
@@ -161,6 +172,7 @@ class Ball(VecMap):
 class SphereQ(VecMap):
     name = 'sphere-quotient'; opname = 'sphq'
     zero_ok = False
+    def guard_ok(self, th): return bool(np.any(np.asarray(th) != 0))
     def call(self, th): return M().to_sphere_quotient(th, self.is_real())
     def out_shape(self): return (self.n if self.is_real() else self.n // 2,)
     def checks(self, th, y, tol):
@@ -187,6 +199,7 @@ class Softmax(VecMap):
 class ProbSphere(Softmax):
     name = 'prob-sphere'; opname = 'psphere'
     zero_ok = False
+    def guard_ok(self, th): return bool(np.any(np.asarray(th) != 0))
     def call(self, th): return M().to_discrete_probability_sphere(th)
     def checks(self, th, y, tol):
         yield 'probability:sphere:>=0', bool(np.all(y >= 0)) and not np.iscomplexobj(y), f'min {y.min()}'
@@ -224,6 +237,10 @@ class PsdChol(MatMap):
 class PsdEns(PsdChol):
     name = 'trace1psd-ensemble'
     zero_ok = False
+    def guard_ok(self, th):
+        m = (1 if self.is_real() else 2) * self.dim
+        b = np.asarray(th)[self.rank:].reshape(self.rank, m)
+        return bool(np.all(np.any(b != 0, axis=1)))
     def nparam(self): return self.rank + (1 if self.is_real() else 2) * self.dim * self.rank
     def call(self, th): return M().to_trace1_psd_ensemble(th, self.dim, self.rank)
     def op(self, th): return f'C01 psdens {self.dim} {self.rank} {self.rc} {tbits(th)}'
@@ -235,6 +252,7 @@ class SymMat(MatMap):
     name = 'symmetric'
     @property
     def zero_ok(self): return not self.n1
+    def guard_ok(self, th): return (not self.n1) or bool(np.any(np.asarray(th) != 0))
     def key(self): return f'symmetric-{self.rc}-d{self.dim}-t{int(self.t0)}-n{int(self.n1)}'
     def nparam(self):
         return (self.dim * (self.dim + 1) // 2 if self.is_real() else self.dim * self.dim) - int(self.t0)
@@ -304,6 +322,9 @@ def stiefel_checks(tag, is_real, y, tol):
 class StPolar(MatMap):
     name = 'stiefel-polar'
     zero_ok = False
+    def columns(self):
+        base = [np.arange(self.dim) * self.rank + c for c in range(self.rank)]
+        return base if self.is_real() else [np.concatenate([b, b + self.dim * self.rank]) for b in base]
     def nparam(self): return (1 if self.is_real() else 2) * self.dim * self.rank
     def call(self, th): return M().to_stiefel_polar(th, self.dim, self.rank)
     def op(self, th): return f'C01 stpolar {self.dim} {self.rank} {self.rc} {tbits(th)}'
@@ -316,6 +337,10 @@ class StPolar(MatMap):
 
 class StQR(StPolar):
     name = 'stiefel-qr'
+    def accept(self, th, f32, for_tie):
+        # LAPACK's Q has orthonormal columns for EVERY theta (zero or dependent columns included); only the comparison of Q itself with the
+        # model needs a well-conditioned matrix.  The probe therefore takes every theta, the tie only well-conditioned ones.
+        return self.wellcond(th, f32) if for_tie else True
     def call(self, th): return M().to_stiefel_qr(th, self.dim, self.rank)
     def op(self, th): return f'C01 stqr {self.dim} {self.rank} {self.rc} {tbits(th)}'
     def canon(self, th, y):
@@ -400,7 +425,7 @@ def all_specs(ctx, rng):
     return specs
 
 
-def draw_row(rng, spec, n, B, f32, kind):
+def draw_row(rng, spec, n, B, f32, kind, for_tie=True):
     """one parameter vector of the requested kind, |theta_i| <= B, accepted only if the pre-factor is well conditioned;
     kinds: generic (scale*normal with scale log-uniform in [1e-8, B] | per-entry log-uniform | uniform O(1)),
     hi / lo (every entry within 2% of +B / -B), offset (row constant c in [-B,B] plus a spread of 1.5), signs (|theta_i| within 2% of B, random signs)"""
@@ -413,6 +438,22 @@ def draw_row(rng, spec, n, B, f32, kind):
             return B * (1 - 0.02 * rng.random(n)) * rng.choice([-1.0, 1.0], size=n)
         if kind == 'offset':
             return np.clip(rng.uniform(-B, B) + rng.uniform(-1.5, 1.5, size=n), -B, B)
+        if kind == 'zeros':
+            # exactly-zero entries: sparse / masked / one-hot parameter vectors, empty columns or blocks, the zero vector
+            th = gen('generic' if rng.random() < 0.7 else 'signs').copy()
+            pat = rng.integers(0, 5)
+            cols = spec.columns()
+            if pat == 0:
+                th[rng.random(n) < 0.3] = 0
+            elif pat == 1 and n > 0:
+                a = int(rng.integers(0, n)); th[a:a + int(rng.integers(1, n + 1))] = 0
+            elif pat == 2 and cols:
+                th[cols[int(rng.integers(0, len(cols)))]] = 0
+            elif pat == 3 and n > 0:
+                keep = int(rng.integers(0, n)); v = th[keep]; th[:] = 0; th[keep] = v      # one-hot
+            else:
+                th[:] = 0
+            return th
         mode = rng.integers(0, 3)
         if mode == 0:
             s = 10 ** rng.uniform(-8, math.log10(B))
@@ -426,20 +467,21 @@ def draw_row(rng, spec, n, B, f32, kind):
         th = gen(k)
         if f32:
             th = th.astype(np.float32).astype(np.float64)
-        if spec.wellcond(th, f32) and (n == 0 or np.any(th != 0)):
+        if spec.accept(th, f32, for_tie) and (n == 0 or np.any(th != 0) or (k == 'zeros' and (spec.zero_ok or (isinstance(spec, StQR) and not for_tie)))):
             return th, k
     while True:    # practically never reached: uniform O(1) entries are well conditioned with high probability
         th = rng.uniform(-1, 1, size=n)
         if f32:
             th = th.astype(np.float32).astype(np.float64)
-        if spec.wellcond(th, f32):
+        if spec.accept(th, f32, for_tie):
             return th, 'generic'
 
 
-def draw_theta(rng, spec, shape, f32, kinds_out=None):
+def draw_theta(rng, spec, shape, f32, kinds_out=None, for_tie=True):
     """theta of shape `shape + (n,)`.  Batches of >= 2 samples are, with probability 0.6, *extreme batches*: one row near +bound, one row near
     -bound, the others at per-row constant offsets — all inside the bound of the map; otherwise every row is drawn independently
-    (70% generic incl. tiny scales down to 1e-8, 30% hi/lo/offset/signs; the zero vector where legal)."""
+    (60% generic incl. tiny scales down to 1e-8, 25% hi/lo/offset/signs, 15% rows with exactly-zero entries: random masks, zero blocks, zero
+    columns of the pre-factor, one-hot vectors, the zero vector — always subject to the guard of the map)."""
     n = spec.nparam()
     B = spec.bound_for(f32)
     cnt = int(np.prod(shape)) if shape else 1
@@ -447,14 +489,14 @@ def draw_theta(rng, spec, shape, f32, kinds_out=None):
         kinds = ['hi', 'lo'] + ['offset'] * (cnt - 2)
         kinds = [kinds[i] for i in rng.permutation(cnt)]
     else:
-        kinds = [('generic' if rng.random() < 0.7 else str(rng.choice(['hi', 'lo', 'offset', 'signs']))) for _ in range(cnt)]
+        kinds = [str(rng.choice(['generic', 'hi', 'lo', 'offset', 'signs', 'zeros'], p=[0.6, 0.06, 0.06, 0.07, 0.06, 0.15])) for _ in range(cnt)]
     rows = []
     for k in range(cnt):
         if spec.zero_ok and kinds[k] == 'generic' and k == 0 and rng.integers(0, 6) == 0 and spec.wellcond(np.zeros(n), f32):
             rows.append(np.zeros(n))
             if kinds_out is not None: kinds_out.append('zero')
             continue
-        th, used = draw_row(rng, spec, n, B, f32, kinds[k])
+        th, used = draw_row(rng, spec, n, B, f32, kinds[k], for_tie)
         rows.append(th)
         if kinds_out is not None: kinds_out.append(used)
     return np.array(rows).reshape(tuple(shape) + (n,))
@@ -477,10 +519,31 @@ def rel_err(a, b):
     return float(np.max(np.abs(a - b) / np.maximum(1.0, np.abs(b)), initial=0.0))
 
 
-def run_specs(ctx, specs, rng, per_spec):
+def to_backend_view(th, backend, f32, noncontig):
+    """theta in the backend; `noncontig`: a strided view (every second entry of a twice as long buffer) instead of a contiguous array"""
+    import torch
+    dt = np.float32 if f32 else np.float64
+    if not noncontig:
+        a = np.ascontiguousarray(th.astype(dt))
+        return torch.tensor(a) if backend == 'torch' else a
+    base = np.zeros(th.shape[:-1] + (2 * th.shape[-1],), dtype=dt)
+    base[..., ::2] = th
+    base[..., 1::2] = 7.0          # must never be read
+    if backend == 'torch':
+        return torch.tensor(base)[..., ::2]
+    return base[..., ::2]
+
+
+def same_bits(a, b):
+    a = to_np(a); b = to_np(b)
+    return a.shape == b.shape and a.dtype == b.dtype and bool(np.array_equal(a, b, equal_nan=True))
+
+
+def run_specs(ctx, specs, rng, per_spec, for_tie=True):
     """shared by correspondence and probe.  For every spec a number of (dtype, batch shape) picks — stratified: one float32 and one float64 pick
     at least, batched shapes preferred — and for every pick ONE theta that is evaluated on BOTH backends.
-    Returns records (spec, backend, f32, shape, theta, output | error string, group id)."""
+    Returns records dict(spec, backend, f32, shp, th, y, gid, x, x0, y2, degenerate): `x` is the very object passed to the map (a contiguous array
+    or, in a third of the probe picks, a non-contiguous view), `x0` its snapshot before the call, `y2` a second call on the same object."""
     recs = []
     gid = 0
     for spec in specs:
@@ -497,14 +560,19 @@ def run_specs(ctx, specs, rng, per_spec):
             if isinstance(spec, StEuler) and len(shp) > 1:
                 shp = shapes_[2]    # to_stiefel_euler asserts theta.ndim <= 2 (the guard is tied separately)
             kinds = []
-            th = draw_theta(rng, spec, shp, f32, kinds)
+            th = draw_theta(rng, spec, shp, f32, kinds, for_tie)
             for k in kinds:
                 ctx.count('input-' + k)
             gid += 1
+            noncontig = (not for_tie) and rng.random() < 0.33
+            degenerate = not all(spec.wellcond(r, f32) for r in th.reshape(-1, spec.nparam()))
             for backend in ('np', 'torch'):
-                x = to_backend(th, backend, f32)
+                x = to_backend_view(th, backend, f32, noncontig)
+                x0 = to_np(x).copy()
                 y = guarded(lambda: to_np(spec.call(x)))
-                recs.append((spec, backend, f32, shp, th, y, gid))
+                y2 = None if for_tie else guarded(lambda: to_np(spec.call(x)))
+                recs.append(dict(spec=spec, backend=backend, f32=f32, shp=shp, th=th, y=y, gid=gid, x=x, x0=x0, y2=y2,
+                                 degenerate=degenerate, noncontig=noncontig))
     return recs
 
 
@@ -516,7 +584,8 @@ def correspondence(ctx):
         for _ in range(3):      # thorough: four passes over the full option lattice
             recs += run_specs(ctx, specs, rng, None)
     ops, meta = [], []
-    for spec, backend, f32, shp, th, y, _gid in recs:
+    for rec in recs:
+        spec, backend, f32, shp, th, y = (rec[k] for k in ('spec', 'backend', 'f32', 'shp', 'th', 'y'))
         n = spec.nparam()
         rows = th.reshape(-1, n)
         osz = int(np.prod(spec.out_shape()))
@@ -581,8 +650,10 @@ def replay_of(spec, backend, f32, shp, th):
 def cross_backend(ctx, recs):
     """numpy == torch on exactly the same theta (same dtype, same batch)"""
     by = {}
-    for spec, backend, f32, shp, th, y, gid in recs:
-        by.setdefault(gid, {})[backend] = (spec, f32, shp, th, y)
+    for rec in recs:
+        if rec['degenerate'] and isinstance(rec['spec'], StQR):
+            continue    # Q is not unique for dependent / zero columns: only its orthonormality is claimed
+        by.setdefault(rec['gid'], {})[rec['backend']] = (rec['spec'], rec['f32'], rec['shp'], rec['th'], rec['y'])
     for gid, d in by.items():
         if 'np' not in d or 'torch' not in d:
             continue
@@ -614,12 +685,22 @@ def cross_backend(ctx, recs):
 
 def probe_constraints(ctx, rng):
     specs = all_specs(ctx, rng)
-    recs = run_specs(ctx, specs, rng, 3 if ctx.quick() else None)
+    recs = run_specs(ctx, specs, rng, 3 if ctx.quick() else None, for_tie=False)
     if not ctx.quick():
         for _ in range(3):
-            recs += run_specs(ctx, specs, rng, None)
+            recs += run_specs(ctx, specs, rng, None, for_tie=False)
     cross_backend(ctx, recs)
-    for spec, backend, f32, shp, th, y, _gid in recs:
+    for rec in recs:
+        spec, backend, f32, shp, th, y = (rec[k] for k in ('spec', 'backend', 'f32', 'shp', 'th', 'y'))
+        x = rec['x']
+        view = 'non-contiguous view' if rec['noncontig'] else 'contiguous'
+        # (i) the caller's theta must not be modified, (ii) two calls on the same object agree bit for bit
+        if not same_bits(x, rec['x0']):
+            ctx.fail(f'{spec.name}:theta-modified', f'{spec.key()} modifies the caller\'s theta in place ({backend}, {"float32" if f32 else "float64"}, batch {shp}, {view})', replay_of(spec, backend, f32, shp, th))
+        elif isinstance(y, str) != isinstance(rec['y2'], str) or (not isinstance(y, str) and not same_bits(y, rec['y2'])):
+            ctx.fail(f'{spec.name}:not-reproducible', f'{spec.key()}: two calls on the same theta object give different results ({backend}, batch {shp}, {view})', replay_of(spec, backend, f32, shp, th))
+        else:
+            ctx.probe_ok()
         tol = PROBE32 if f32 else PROBE64
         n = spec.nparam()
         rows = th.reshape(-1, n)
@@ -643,12 +724,14 @@ def probe_constraints(ctx, rng):
             if ok_all:
                 ctx.probe_ok((spec.key(), backend, f32, len(shp), s))
         # batched == stacked per-sample calls (code vs code)
+        # (iii) on the SAME array object that was passed to the batched call (no copies in between)
         if shp:
-            x = to_backend(th, backend, f32)
             flat = x.reshape(-1, n)
             per = guarded(lambda: np.stack([to_np(spec.call(flat[s])) for s in range(rows.shape[0])]))
             tolb = (1e-5 if f32 else 1e-12)
-            if isinstance(per, str) or rel_err(per.reshape(ys.shape), ys) > tolb:
+            if rec['degenerate'] and isinstance(spec, StQR):
+                tolb = float('inf') if isinstance(per, str) is False else tolb      # non-unique Q: only existence of the per-sample result is required
+            if isinstance(per, str) or (np.isfinite(tolb) and rel_err(per.reshape(ys.shape), ys) > tolb):
                 ctx.fail(f'{spec.name}:batch==single', f'{spec.key()}: batched call differs from stacked per-sample calls ({backend}, batch {shp})', replay_of(spec, backend, f32, shp, th))
             else:
                 ctx.probe_ok()
@@ -728,6 +811,22 @@ def probe_modules(ctx, rng):
             ctx.fail('module:forward!=functional', f'{desc}: forward() differs from the functional map on module.theta', dict(module=desc, theta=[float(x) for x in m.theta.detach().reshape(-1)]))
         else:
             ctx.probe_ok(('module', desc))
+        # (iv) the NumPy functional map on the parameter's own memory (module.theta.detach().numpy() shares it), then the module again
+        import types
+        th0 = m.theta.detach().clone()
+        ns = types.SimpleNamespace(**{k: (float(v) if isinstance(v, torch.Tensor) and v.ndim == 0 else v) for k, v in vars(m).items() if not k.startswith('_')})
+        ns.theta = m.theta.detach().numpy()
+        guarded(lambda: fn(ns))
+        with torch.no_grad():
+            c = guarded(lambda: m())
+        if not torch.equal(m.theta.detach(), th0):
+            ctx.fail('module:theta-modified', f'{desc}: the NumPy functional map called on module.theta.detach().numpy() changed the module\'s parameters',
+                     dict(module=desc, theta=[float(x) for x in th0.reshape(-1)]))
+        elif isinstance(c, str) or not torch.equal(c, a):
+            ctx.fail('module:history-dependent', f'{desc}: forward() after a NumPy functional call on the shared parameter memory differs from forward() before it',
+                     dict(module=desc, theta=[float(x) for x in th0.reshape(-1)]))
+        else:
+            ctx.probe_ok()
         want = {torch.float32: torch.float32, torch.float64: torch.float64, torch.complex64: torch.complex64, torch.complex128: torch.complex128}
         dt = getattr(m, 'dtype', None)
         if dt is not None and a.dtype != want[dt]:
@@ -740,7 +839,7 @@ def probe_compose(ctx, rng):
     import torch, numqi
     Mm = M()
     ops, expect, tols = [], [], []
-    for rep in range(6 if ctx.quick() else 30):
+    for rep in range(12 if ctx.quick() else 60):
         din, dout = int(rng.integers(2, 4)), int(rng.integers(2, 4))
         cr = int(rng.integers(1, din * dout + 1))
         if cr * dout < din:
@@ -755,6 +854,18 @@ def probe_compose(ctx, rng):
             ch = guarded(lambda: Mm.QuantumChannel(din, dout, cr, bs, meth, euler_with_phase=(rep % 4 == 0), return_kind=kind, dtype=dt))
             if isinstance(ch, str):
                 ctx.fail('channel:constructor', f'{desc} raised {ch}', dict(module=desc)); continue
+            # exactly-zero parameters (zero vector, random mask, an empty column of the QR pre-factor): legal for every method except polar
+            if meth != 'polar' and rng.random() < 0.5:
+                with torch.no_grad():
+                    t = ch.manifold.theta.data
+                    pat = int(rng.integers(0, 3))
+                    if pat == 0:
+                        t.zero_(); desc += '[theta=0]'
+                    elif pat == 1 and meth == 'qr':
+                        tv = t.view(*t.shape[:-1], 2, cr * dout, din)
+                        tv[..., :, int(rng.integers(0, din))] = 0; desc += '[zero column]'
+                    else:
+                        t[..., torch.tensor(rng.random(t.shape[-1]) < 0.3)] = 0; desc += '[masked]'
             with torch.no_grad():
                 out = guarded(lambda: ch())
                 X = guarded(lambda: ch.manifold())
